@@ -54,3 +54,26 @@ Print Assumptions C15_attach_nonneg.
 Theorem C15_base_tensor_mass : forall t groups, mass (base_tensor t groups) == mass t.
 Proof. exact base_tensor_mass. Qed.
 Print Assumptions C15_base_tensor_mass.
+
+(* the special parameter vectors (Proofs/C15_Special.v): at construct_constant_initial the auxiliary variable is the
+   constant 0 (conditioning on it changes nothing: the source of the bound by the unconditional measure); at
+   construct_copy_initial it is a copy of its parent (the bound by the measure given the conditioning variables) *)
+From Verif Require Import C15_Special.
+Theorem C15_const_extend_zero : forall shape J av rows o,
+  a_params av = const_params rows (a_bound av) -> a_bound av <> 0%nat ->
+  (flat_index (par_shape shape av) (proj (a_bases av) o) < rows)%nat ->
+  prob_of (extend shape J av) (o ++ [0%nat]) == prob_of J o.
+Proof. intros; eapply const_extend_zero; eassumption. Qed.
+Print Assumptions C15_const_extend_zero.
+Theorem C15_const_extend_succ : forall shape J av rows o a,
+  a_params av = const_params rows (a_bound av) -> a_bound av <> 0%nat ->
+  (flat_index (par_shape shape av) (proj (a_bases av) o) < rows)%nat ->
+  prob_of (extend shape J av) (o ++ [S a]) == 0.
+Proof. intros; eapply const_extend_succ; eassumption. Qed.
+Print Assumptions C15_const_extend_succ.
+Theorem C15_copy_extend : forall shape J av z sz o a,
+  a_params av = copy_params sz (a_bound av) -> a_bases av = [z] -> par_shape shape av = [sz] ->
+  (nth z o 0 < sz)%nat -> (sz <= a_bound av)%nat -> (a < a_bound av)%nat ->
+  prob_of (extend shape J av) (o ++ [a]) == if Nat.eqb a (nth z o 0%nat) then prob_of J o else 0.
+Proof. exact copy_extend. Qed.
+Print Assumptions C15_copy_extend.
